@@ -7,12 +7,12 @@
 (* (vertex enumeration) intersection together with its exact measures.     *)
 (***************************************************************************)
 EXTENDS G3DBodies, G3DMeasure, TLC, Json
-CONSTANTS S, BODIES1, BODIES2, T, SEED, NSHARD
+CONSTANTS S, BODIES1, BODIES2, T, SEED, NSHARD, GENK, NGEN
 VARIABLES ph, a, b, t, r      \* r: the exact intersection, computed once per case
 vars == <<ph, a, b, t, r>>
 \* three levels: first body, second body (untranslated), translation
-Init == ph = 1 /\ a \in { Body(nm, S) : nm \in BODIES1 } /\ b = NoneObj /\ t = Zero3 /\ r = NoneObj
-Next == \/ ph = 1 /\ ph' = 2 /\ a' = a /\ b' \in { Body(nm, S) : nm \in BODIES2 } /\ t' = t /\ r' = r
+Init == ph = 1 /\ a \in { Body(nm, S) : nm \in BODIES1 } \cup GenHullSample(GENK, 2, S, SEED, NGEN) /\ b = NoneObj /\ t = Zero3 /\ r = NoneObj
+Next == \/ ph = 1 /\ ph' = 2 /\ a' = a /\ b' \in { Body(nm, S) : nm \in BODIES2 } \cup GenHullSample(GENK, 2, S, SEED + 1, NGEN) /\ t' = t /\ r' = r
         \/ ph = 2 /\ ph' = 3 /\ a' = a /\ b' = b /\ t' \in { x \in Box(T) : InShard3(a, b, x, SEED, NSHARD) }
            /\ r' = InterGeneric(a, Translate(b, t'))
 Spec == Init /\ [][Next]_vars
